@@ -14,8 +14,8 @@ PROPERTY = "C04"
 LEVEL = "exploration"
 RULE = (
     "Random: Hypothesis draws 2..5 groups of 2..8 rows, each group containing both labels, scores from "
-    "one of six level sets ({0,1}, k/3, wide k/3, one-decimal, reals / reals in [0,1] rounded to 3 "
-    "decimals, so distinct levels are >= 1e-3 apart; per group independent of the label, informative or "
+    "one of eleven level sets ({0,1}, k/3, wide k/3, one-decimal, reals / reals in [0,1] rounded to 3 "
+    "decimals, levels 1e-7 / 1e-6 apart, small integers, neighbouring floats base + 0..3 ulps, subnormals k * 5e-324; per group independent of the label, informative or "
     "anti-informative), a row permutation, one of the 7 constraint names (equalized_odds on ~1/3 of the cases) "
     "x an admissible objective x flip x grid_size in {1,2,3,7,10,50,1000} x prefit x predict_method in "
     "{predict, decision_function, auto} and containers (X ndarray/DataFrame, y and sensitive features "
@@ -28,7 +28,8 @@ RULE = (
 )
 ASSUMPTIONS = [
     "scores reach the optimizer unchanged through the pass-through estimator vf.learners.ScoreColumn",
-    "distinct score levels are at least 1e-3 apart; adjacent-float and overflowing scores are outside this check",
+    "score levels down to neighbouring floating point numbers (modes 'adjacent': base + 0..3 ulps, 'subnormal': k * 5e-324) are "
+    "generated since defect D24 was repaired; scores whose sum overflows (> 9e307) are outside this check",
     "absolute tolerance 1e-9 on the per-group expected metric, on probabilities in [0,1] and on pmf rows summing to 1",
     "coverage classes interior_segment / grid_at_vertex / p_ignore>0 / flip_used are read from the fitted "
     "interpolation_dict; they never enter the verdict",
